@@ -160,6 +160,13 @@ theorem llh2xyz_height_along_normal (ell : Ellipsoid) (lat lon h : ℝ) :
   rw [llh2xyz_closed_form, llh2xyz_closed_form]
   refine Prod.ext ?_ (Prod.ext ?_ ?_) <;> simp only <;> ring
 
+/-- east/west symmetry: the western longitude `−λ` gives the same `x`, `z` and the opposite `y`. -/
+theorem llh2xyz_west (ell : Ellipsoid) (lat lon h : ℝ) :
+    llh2xyz lat (-lon) h ell =
+      ((llh2xyz lat lon h ell).1, -(llh2xyz lat lon h ell).2.1, (llh2xyz lat lon h ell).2.2) := by
+  rw [llh2xyz_closed_form, llh2xyz_closed_form]
+  simp only [neg_mul, Real.sin_neg, Real.cos_neg, mul_neg]
+
 /-- North/south pole (`lat = ±90`) on a constructed ellipsoid with `0 < f < 1`:
 `x = y = 0`, `z = ±(b + h)`. -/
 theorem llh2xyz_poles (a invf : ℝ) (ha : a ≠ 0) (hf0 : 0 < 1 / invf) (hf1 : 1 / invf < 1)
@@ -555,6 +562,7 @@ end GeodeVerif.C03
 #print axioms GeodeVerif.C03.llh2xyz_equator
 #print axioms GeodeVerif.C03.llh2xyz_poles
 #print axioms GeodeVerif.C03.llh2xyz_mirror
+#print axioms GeodeVerif.C03.llh2xyz_west
 #print axioms GeodeVerif.C03.llh2xyz_height_along_normal
 #print axioms GeodeVerif.C03.llh2xyz_lon_period
 #print axioms GeodeVerif.C03.llh2xyz_opposite_meridian
